@@ -48,6 +48,8 @@ type ServiceDef struct {
 	GRPCRegister  any                     // gen/grpc/<svc>/pb.Register<Svc>Server
 	GRPCNewClient any                     // gen/grpc/<svc>/client.NewClient
 	Types         map[string]reflect.Type // named types of the service package
+	// Makers: the generated Make<Error>(err error) *goa.ServiceError constructors
+	Makers map[string]any
 }
 
 // H is the harness state.
@@ -166,6 +168,9 @@ type ErrorSpec struct {
 	// Sentinel: (plain, wrapped-plain) the error is this well-known error
 	// value of the standard library instead of errors.New(Message)
 	Sentinel string `json:"sentinel,omitempty"`
+	// Maker: kind "made": the error is built by this generated constructor
+	// (Make<Error>) from errors.New(Message), as service code is documented to do
+	Maker string `json:"maker,omitempty"`
 }
 
 // Sentinels are well-known error values a service method may return (directly
@@ -1122,6 +1127,16 @@ func buildError(e *ErrorSpec, def *ServiceDef) error {
 		return s
 	}
 	switch e.Kind {
+	case "made":
+		mk, ok := def.Makers[e.Maker]
+		if !ok {
+			return fmt.Errorf("harness: unknown error constructor %q", e.Maker)
+		}
+		out := reflect.ValueOf(mk).Call([]reflect.Value{reflect.ValueOf(errors.New(e.Message))})
+		if err, ok := out[0].Interface().(error); ok {
+			return err
+		}
+		return fmt.Errorf("harness: %s did not return an error", e.Maker)
 	case "service":
 		return svcErr()
 	case "wrapped-service":
